@@ -251,7 +251,8 @@ where
             ops.push(Op::FlipK2 { cell: c.key, idx: i as u8, how: if i <= D { "every-facet" } else { "out-of-range" } });
         }
         ops.push(Op::FlipK2 { cell: c.key, idx: 255, how: "out-of-range" });
-        if D >= 3 {
+        // also in D = 2, where the move does not exist: every such call must be refused without a trace
+        if D >= 2 {
             for a in 0..=D {
                 for b in a..=D {
                     ops.push(Op::FlipK3 { cell: c.key, a: a as u8, b: b as u8, how: if a == b { "equal-omits" } else { "every-ridge" } });
@@ -279,7 +280,7 @@ where
     for v in &m.verts {
         ops.push(Op::FlipK1Remove { vertex: v.key, how: "every-vertex" });
     }
-    if D >= 3 {
+    if D >= 2 {
         let mut edges: BTreeSet<(u64, u64)> = BTreeSet::new();
         let mut tris: BTreeSet<(u64, u64, u64)> = BTreeSet::new();
         for c in &m.cells {
@@ -289,7 +290,7 @@ where
                     if edges.insert((vk_u64(x).min(vk_u64(y)), vk_u64(x).max(vk_u64(y)))) {
                         ops.push(Op::FlipK2Inv { a: x, b: y, how: "every-edge" });
                     }
-                    if D >= 4 {
+                    if D >= 2 {
                         for cc in b + 1..c.v.len() {
                             let z = c.v[cc];
                             let mut t = [vk_u64(x), vk_u64(y), vk_u64(z)];
